@@ -610,6 +610,12 @@ structure AzRec where
     (when nothing is written they are untouched anyway). -/
 def daAuthzRecord (before : AzRec) (_ : Outcome) : AzRec := before
 
+/-- "one of the authorization's challenges is valid": `deviceAttest01Validate` loads the authorization
+    whose id came with the request (`ch.AuthorizationID`, set by the handler from the URL). When that
+    is another identifier's authorization (`foreign`), this challenge is not among its challenges and
+    its own ones are untouched (here: pending). -/
+def ownChallengeValid (foreign : Bool) (o : Outcome) : Bool := !foreign && decide (o.status = .valid)
+
 /-- `Authorization.UpdateStatus` — the only writer of an authorization's status: terminal states
     stay, an expired pending authorization turns invalid, a pending one turns valid iff one of its
     challenges is valid. -/
